@@ -43,6 +43,7 @@ struct WorkerSlot {
     child: Child,
     current: Option<u64>,
     began: Instant,
+    began_cpu: f64,
     sig: Option<String>,
     done: bool,
     killed_for_hang: bool,
@@ -167,10 +168,18 @@ impl Judge {
             self.stop();
             return ("harness-judge-broken".into(), 0, String::new());
         }
-        let deadline = Instant::now() + self.timeout;
+        let started = Instant::now();
+        let pid = self.child.as_ref().map(|c| c.id()).unwrap_or(0);
+        let cpu0 = cpu_seconds(pid).unwrap_or(0.0);
         let mut sig: Option<String> = None;
         loop {
-            let left = deadline.saturating_duration_since(Instant::now());
+            // hung = burnt `timeout` of CPU, or blocked for 15x that in wall-clock time
+            let cpu = cpu_seconds(pid).map(|c| c - cpu0).unwrap_or(0.0);
+            let left = if cpu > self.timeout.as_secs_f64() || started.elapsed() > self.timeout * 15 {
+                Duration::from_millis(0)
+            } else {
+                Duration::from_millis(200)
+            };
             match self.rx.as_ref().unwrap().recv_timeout(left) {
                 Ok(Some(l)) => {
                     if let Some(rest) = l.strip_prefix("V ") {
@@ -196,8 +205,10 @@ impl Judge {
                     return (crash_class(sig.as_deref(), status.map(|s| format!("{:?}", s)).as_deref()), 0, sig.unwrap_or_default());
                 }
                 Err(RecvTimeoutError::Timeout) => {
-                    self.stop();
-                    return ("hang".into(), 0, format!("no answer within {:?}", self.timeout));
+                    if left.is_zero() {
+                        self.stop();
+                        return ("hang".into(), 0, format!("no answer after {:?} of CPU time", self.timeout));
+                    }
                 }
                 Err(RecvTimeoutError::Disconnected) => {
                     self.stop();
@@ -258,6 +269,18 @@ pub struct RunSummary {
     pub truncated_by_deadline: bool,
 }
 
+/// CPU seconds (user + system) consumed so far by process `pid`, from /proc.
+pub fn cpu_seconds(pid: u32) -> Option<f64> {
+    let t = std::fs::read_to_string(format!("/proc/{}/stat", pid)).ok()?;
+    // fields after the command name (which may contain spaces) start after the last ')'
+    let rest = &t[t.rfind(')')? + 2..];
+    let f: Vec<&str> = rest.split_whitespace().collect();
+    let utime: f64 = f.get(11)?.parse().ok()?;
+    let stime: f64 = f.get(12)?.parse().ok()?;
+    let hz = unsafe { libc::sysconf(libc::_SC_CLK_TCK) } as f64;
+    Some((utime + stime) / hz.max(1.0))
+}
+
 fn a_profile(a: &ParentArgs, idx: usize) -> String {
     a.bins[idx].0.clone()
 }
@@ -270,7 +293,7 @@ pub fn drive(a: &ParentArgs) -> RunSummary {
         for k in 0..*w {
             let id = slots.len();
             let child = spawn_worker(a, pi, k, 0, &tx, id);
-            slots.push(WorkerSlot { profile: pi, k, child, current: None, began: Instant::now(), sig: None, done: false, killed_for_hang: false, restarts: 0 });
+            slots.push(WorkerSlot { profile: pi, k, child, current: None, began: Instant::now(), began_cpu: 0.0, sig: None, done: false, killed_for_hang: false, restarts: 0 });
         }
     }
     let mut sum = RunSummary {
@@ -295,6 +318,7 @@ pub fn drive(a: &ParentArgs) -> RunSummary {
                 if let Some(rest) = l.strip_prefix("B ") {
                     s.current = rest.trim().parse().ok();
                     s.began = Instant::now();
+                    s.began_cpu = cpu_seconds(s.child.id()).unwrap_or(0.0);
                 } else if let Some(rest) = l.strip_prefix("E ") {
                     let mut it = rest.splitn(2, ' ');
                     let i: u64 = it.next().and_then(|x| x.parse().ok()).unwrap_or(0);
@@ -387,6 +411,7 @@ pub fn drive(a: &ParentArgs) -> RunSummary {
                         s.child = child;
                         s.current = None;
                         s.began = Instant::now();
+                        s.began_cpu = 0.0;
                         s.killed_for_hang = false;
                         s.restarts += 1;
                     }
@@ -398,10 +423,15 @@ pub fn drive(a: &ParentArgs) -> RunSummary {
             Err(RecvTimeoutError::Disconnected) => break,
         }
         // hang control (wall clock is a backstop only)
+        // A run counts as hung when it has *burnt* hang_s seconds of CPU (load-independent),
+        // or, as a last resort, after 15x that in wall-clock time (blocked forever).
         for s in slots.iter_mut() {
-            if !s.done && s.current.is_some() && !s.killed_for_hang && s.began.elapsed().as_secs_f64() > a.hang_s {
-                s.killed_for_hang = true;
-                let _ = s.child.kill();
+            if !s.done && s.current.is_some() && !s.killed_for_hang {
+                let cpu = cpu_seconds(s.child.id()).map(|c| c - s.began_cpu).unwrap_or(0.0);
+                if cpu > a.hang_s || s.began.elapsed().as_secs_f64() > a.hang_s * 15.0 {
+                    s.killed_for_hang = true;
+                    let _ = s.child.kill();
+                }
             }
         }
     }
@@ -486,10 +516,12 @@ pub fn locate_crash(a: &ParentArgs, profile: &str, i: u64) -> Option<(Value, Opt
     let mut finished = false;
     let mut hang = false;
     let mut last_activity = Instant::now();
+    let mut cpu_at_activity = 0.0f64;
     loop {
         match rx.recv_timeout(Duration::from_millis(200)) {
             Ok(Some(l)) => {
                 last_activity = Instant::now();
+                cpu_at_activity = cpu_seconds(child.id()).unwrap_or(0.0);
                 if let Some(j) = l.strip_prefix("C ") {
                     last = serde_json::from_str(j).ok();
                 } else if let Some(s) = l.strip_prefix("SIG ") {
@@ -500,7 +532,8 @@ pub fn locate_crash(a: &ParentArgs, profile: &str, i: u64) -> Option<(Value, Opt
             }
             Ok(None) => break,
             Err(RecvTimeoutError::Timeout) => {
-                if last_activity.elapsed().as_secs_f64() > a.hang_s {
+                let cpu = cpu_seconds(child.id()).unwrap_or(0.0);
+                if cpu - cpu_at_activity > a.hang_s || last_activity.elapsed().as_secs_f64() > a.hang_s * 15.0 {
                     hang = true;
                     let _ = child.kill();
                 }
